@@ -355,11 +355,29 @@ namespace vh
   }
 
   // ---------------------------------------------------------------- jacobian
+  template<std::size_t L, std::size_t LS, bool CSC>
+  std::string jacobianImpl(Tok& t, std::size_t ncell, std::size_t ns);
+
   template<std::size_t L, bool CSC>
   std::string KernelCfg<L, CSC>::jacobian(Tok& t, std::size_t ncell, std::size_t ns)
   {
+    return jacobianImpl<L, L, CSC>(t, ncell, ns);
+  }
+
+  /// the mixed configuration the library supports on purpose (the scalar kernel is selected): dense data in a
+  /// VectorMatrix<L>, Jacobian in a STANDARD-ordered sparse matrix (this is what CpuSolverBuilder<Params,
+  /// VectorMatrix<double, L>> gives by default)
+  template<std::size_t L, bool CSC>
+  std::string KernelCfg<L, CSC>::jacobianmix(Tok& t, std::size_t ncell, std::size_t ns)
+  {
+    return jacobianImpl<L, 0, CSC>(t, ncell, ns);
+  }
+
+  template<std::size_t L, std::size_t LS, bool CSC>
+  std::string jacobianImpl(Tok& t, std::size_t ncell, std::size_t ns)
+  {
     using DM = typename DenseOf<L>::type;
-    using SM = SparseOf<L, CSC>;
+    using SM = SparseOf<LS, CSC>;
     auto perm = t.nats(ns);
     auto procs = mech(t);
     std::size_t nrx = procs.size();
@@ -385,7 +403,7 @@ namespace vh
     }
     o.key("flat");
     for (auto x : ps.*PSpy::flatIds())
-      o.n(x / rankDiv<L>());
+      o.n(x / rankDiv<LS>());
     o.key("J");
     auto pat = patternOf(J);
     for (std::size_t b = 0; b < ncell; ++b)
